@@ -229,6 +229,16 @@ def rebuild_full(bank, idx, D):
 
 
 def library_oracle(ctx):
+    from pydrobert.speech import config
+
+    floor0 = config.LOG_FLOOR_VALUE
+    try:
+        return library_oracle_(ctx, floor0)
+    finally:
+        config.LOG_FLOOR_VALUE = floor0
+
+
+def library_oracle_(ctx, floor0):
     from pydrobert.speech import compute, filters, config
 
     r = ctx.rng
@@ -244,6 +254,7 @@ def library_oracle(ctx):
         if ctx.out_of_time():
             break
         corner = corners[it] if it < len(corners) else None
+        config.LOG_FLOOR_VALUE = floor0
         rate = r.choice([4000, 8000, 11025])
         kind = r.choice(["gabor", "tri", "fbank", "gammatone", "tri_analytic"])
         scale = r.choice(["mel", "bark", dict(name="linear", low_hz=0.0), dict(name="octave", low_hz=30.0)])
@@ -289,6 +300,12 @@ def library_oracle(ctx):
         if S < 1 or S > L:
             ctx.count("out_of_scope")
             continue
+        floor_changed = None
+        if flags["use_log"] and it % 3 == 1:
+            # LOG_FLOOR_VALUE is a configuration knob read when the log is taken: raise it AFTER the computer was
+            # built (restored at the top of the next iteration / on exit); the oracle below reads the live value too
+            config.LOG_FLOOR_VALUE = floor_changed = 1e-2
+            ctx.count("log_floor_changed_after_ctor")
         D = int(2 ** np.ceil(np.log2(L))) if flags["pad_to_nearest_power_of_two"] else L
         N = r.choice([L // 2, L // 2 + 1, L, 2 * L + 5, r.randrange(L, 4 * L)])
         # loud, quiet and silent signals (the log floor and the energy coefficient only matter when a frame is quiet)
@@ -297,7 +314,7 @@ def library_oracle(ctx):
             N, level = 2 * L + 5, 1.0
         x = np.random.RandomState(r.randrange(1 << 30)).randn(N) * level
         x.setflags(write=False)
-        case = dict(kind="library", level=level, bank=kind, scale=str(scale), num_filts=nf, rate=rate, low=lo, high=hi, L=L, S=S, D=D,
+        case = dict(kind="library", log_floor_after_ctor=floor_changed, level=level, bank=kind, scale=str(scale), num_filts=nf, rate=rate, low=lo, high=hi, L=L, S=S, D=D,
                     style=style, kaldi=kaldi, window=wname, N=N, **flags)
         ctx.case(case, kind="library:" + kind)
         try:
